@@ -1,6 +1,7 @@
 \* the pinned implementation shape (map read substrate -> product): TLC must find ThLinIsIso violated
 CONSTANTS
     Tpls = {"cycle", "chain"}
+    Ords = {"std"}
     MaxNL = 3
     MaxL = 3
     Focus = TRUE
